@@ -126,6 +126,30 @@ def run_round(w, tname, s, x, n, st=None):
             out.append((f'C13:round:value:{rep}',
                         f"round({q!r}, {n}) = {r.amount!r}, expected "
                         f"{want} (half-even)"))
+    # under another configured default mode round(q, n) still "rounds the
+    # amount": it must agree with round() applied to the amount itself
+    for mode in ('ROUND_HALF_UP', 'ROUND_CEILING', 'ROUND_DOWN'):
+        prev = O.get_mode()
+        O.set_mode(mode)
+        try:
+            for rep, amount in holders(F(x)):
+                q = cls(amount, w.units[s])
+                own = round(amount) if n is None else round(amount, n)
+                r = round(q) if n is None else round(q, n)
+                if st is not None:
+                    st.transitions += 1
+                    st.evaluations += 1
+                if O.fr(r.amount) != O.fr(own) or r.unit is not w.units[s]:
+                    out.append((f'C13:round:amount-rounding:{rep}',
+                                f"default mode {mode}: round({q!r}, {n}) = "
+                                f"{r.amount!r}, round(amount, {n}) = "
+                                f"{own!r}"))
+        except Exception as exc:
+            out.append(('C13:round:raises:configured-mode',
+                        f"{mode}: round({x} {s}, {n}): "
+                        f"{type(exc).__name__}: {exc}"))
+        finally:
+            O.set_mode(prev)
     return out
 
 
